@@ -186,7 +186,21 @@ fn hide_case() -> BoxedStrategy<HideCase> {
                 cssgen::variant(),
             )
         })
-        .prop_map(|(mut doc, sheet, delivery, inl, width, rich, variant)| {
+        .prop_map(|(mut doc, mut sheet, delivery, inl, width, rich, variant)| {
+            // At most one near miss per case, either in the sheet or inline: two declaration blocks that each
+            // hold half of the idiom and match the same element would hide it in a browser (height and
+            // overflow cascade separately) but not in html2text (the idiom is recognised per block); the
+            // property does not say which is right, so such combinations are not generated.
+            let mut near = false;
+            sheet.retain(|r| {
+                if r.decls.iter().any(|d| matches!(d.prop, Prop::NearMiss(_))) {
+                    if near {
+                        return false;
+                    }
+                    near = true;
+                }
+                true
+            });
             // inline display:none / zero-height idiom on some elements
             let mut i = 0usize;
             for_attrs_mut(&mut doc.blocks, &mut |_, a| {
@@ -204,7 +218,12 @@ fn hide_case() -> BoxedStrategy<HideCase> {
                     });
                 } else if c % 9 == 1 {
                     // other spellings of the idiom (hide) and near misses (do not hide)
-                    a.style = Some(match (c / 9) % 8 {
+                    let k = (c / 9) % 8;
+                    let k = if near && k >= 3 { k % 3 } else { k };
+                    if k >= 3 {
+                        near = true;
+                    }
+                    a.style = Some(match k {
                         0 => "height:0px;overflow:hidden".to_string(),
                         1 => "max-height:0em;overflow-y:hidden".to_string(),
                         2 => "height:0.0pt;overflow:hidden".to_string(),
